@@ -27,7 +27,8 @@ def register(gen, T):
                                        "ast/src/ast_globals.rs", "formatter/src/formatter.rs", "src/compile.rs",
                                        "ir/src/ir_module.rs", "hlsl/src/names.rs", "msl/src/names.rs",
                                        "ir/src/intrinsic_data.rs", "typer/src/typer/pipelines.rs", "typer/src/typer/globals.rs",
-                                       "ir/src/simplify_cbuffers.rs", "msl/src/generator.rs", "typer/src/typer/functions.rs"]),
+                                       "ir/src/simplify_cbuffers.rs", "msl/src/generator.rs", "typer/src/typer/functions.rs",
+                                       "typer/src/typer.rs"]),
                "open RsslVerif.Gen.SlotTables RsslVerif.Gen.CompileTables\n\n"]
         out.append("/-- `DescriptorType` (ir/src/export.rs) -/\ninductive DescT where\n" + "".join(f"  | {d}\n" for d in descs) +
                    "  deriving DecidableEq, Repr, Inhabited\n\n")
@@ -561,6 +562,15 @@ def register(gen, T):
         hl_fn = normws(T.src("hlsl/src/ast_generate.rs"))
         msl_gen = normws(T.src("msl/src/generator.rs"))
 
+        typer_rs = T.src("typer/src/typer.rs")
+        tci = normws(fn_body(typer_rs, "type_check_internal"))
+        prd = normws(fn_body(typer_rs, "parse_rootdefinition"))
+        fn_rs = T.src("typer/src/typer/functions.rs")
+        fn_all = normws(fn_rs)
+        prf = normws(fn_body(fn_rs, "parse_rootdefinition_function"))
+        pf = normws(fn_body(fn_rs, "parse_function"))
+        pfb = normws(fn_body(fn_rs, "parse_function_body"))
+
         def order(text, *needles):
             pos = [text.find(n) for n in needles]
             return all(p >= 0 for p in pos) and pos == sorted(pos)
@@ -588,6 +598,36 @@ def register(gen, T):
                 r'if ir_attributes \.iter\(\) \.any\(\|prev\| std::mem::discriminant\(prev\) == std::mem::discriminant\(&ir_attribute\)\) \{ let name = ast_attribute\.name\.last\(\)\.unwrap\(\); '
                 r'return Err\(TyperError::FunctionAttributeDuplicate\( name\.node\.clone\(\), name\.location, \)\); \} ir_attributes\.push\(ir_attribute\); \} Ok\(ir_attributes\)$',
                 normws(fn_body(T.src("typer/src/typer/functions.rs"), "parse_function_attributes")))),
+            # the order of the front end (Model/MetaFront.parseFile): root definitions strictly in source order, the first
+            # error returns; a Pipeline block is parsed where it stands (against the registry of that moment)
+            "rootDefinitionsInSourceOrderFirstErrorReturns": bool(re.fullmatch(
+                r'for def in &ast\.root_definitions \{ let mut def_ir = parse_rootdefinition\(def, context\)\?; context\.module\.root_definitions\.append\(&mut def_ir\); \} '
+                r'assert!\(context\.is_at_root\(\)\); Ok\(\(\)\)', tci))
+                and bool(re.search(r'ast::RootDefinition::Namespace\(name, contents\) => \{ context\.enter_namespace\(name\)\?; let mut ir_defs = Vec::new\(\); '
+                                   r'for ast_def in contents \{ ir_defs\.extend\(parse_rootdefinition\(ast_def, context\)\?\); \}', prd)),
+            "pipelineBlockParsedWhereItStands": bool(re.search(r'ast::RootDefinition::Pipeline\(def\) => \{ pipelines::parse_pipeline\(def, context\)\?; Ok\(Vec::new\(\)\) \}', prd))
+                and bool(re.search(r'ast::RootDefinition::Function\(fd\) => \{ let def = functions::parse_rootdefinition_function\(fd, context\)\?;', prd))
+                and bool(re.match(r'let \(ir_fd, is_declare\) = parse_function\(fd, context\)\?;', prf)),
+            # a function is registered when its first declaration / definition is met, before its body is looked at ...
+            "functionRegisteredWhereFirstMet": bool(re.match(
+                r'let is_definition = fd\.body\.is_some\(\); let \(signature, scope\) = parse_function_signature\(fd, None, context\)\?; '
+                r'let id = match context\.check_existing_functions\(&fd\.name, &signature, is_definition\)\? \{ Some\(id\) => \{ id \} None => \{ '
+                r'let id = context\.register_function\(fd\.name\.clone\(\), signature\.clone\(\), scope, fd\.clone\(\)\)\?; context\.add_function_to_current_scope\(id\)\?; id \} \}; '
+                r'if is_definition \{', pf)),
+            # ... its attributes are parsed only where it is defined (never on a forward declaration) ...
+            "functionAttributesParsedAtDefinitionOnly": bool(re.search(
+                r'\}; if is_definition \{ if signature\.template_params\.is_empty\(\) \{ parse_function_body\(fd, id, signature, context\)\?; \} else \{ '
+                r'let attributes = parse_function_attributes\(&fd\.attributes, context\)\?; .*?context\.module\.function_registry\.set_implementation\(id, def\); \}; \} '
+                r'Ok\(\(id, !is_definition\)\)$', pf))
+                and "attributes" not in pf[:pf.find("if is_definition {")]
+                and len(re.findall(r'parse_function_attributes\(', fn_all)) == 3
+                and len(re.findall(r'\.attributes\b', fn_all)) == 2,
+            # ... and it has an implementation only after attributes and body went through
+            "implementationStoredAfterAttributesAndBody": bool(re.search(
+                r'let attributes = parse_function_attributes\(&fd\.attributes, context\)\?; let body_ir = parse_statement_list\(fd\.body\.as_ref\(\)\.unwrap\(\), context\)\?; '
+                r'let decls = context\.pop_scope_with_locals\(\); let def = ir::FunctionImplementation \{ params: func_params, scope_block: ir::ScopeBlock\(body_ir, decls\), attributes, \}; '
+                r'context\.module\.function_registry\.set_implementation\(id, def\); Ok\(\(\)\)$', pfb))
+                and len(re.findall(r'set_implementation\(', fn_all)) == 2,
             "staticSamplerWithIndexRefused": bool(re.search(r'if gv_ir\.static_sampler\.is_some\(\) && gv_ir\.lang_slot\.index\.is_some\(\) \{ return Err\(TyperError::StaticSamplerUnexpectedBindingIndex\(', gl)),
             "vkBindingAlwaysSetsTheIndex": len(re.findall(r'result\.binding_index_override = Some\(binding_index\);', gl)) == 2,
             "hlslCbufferNameIsSourceName": bool(re.search(r'fn get_constant_buffer_name\(&self, id: ir::ConstantBufferId\) -> Result<&str, GenerateError> \{ match self\.module\.cbuffer_registry\.get\(id\.0 as usize\) \{ Some\(cd\) => Ok\(cd\.name\.as_str\(\)\),', hl_fn)),
